@@ -455,7 +455,9 @@ Inductive obs :=
 | ORecvE (r : recvres) (e : err)        (* ... on the returned error channel (e read only for RGot) *)
 | OSent (m : outmsg)                    (* the peer handler was handed a message for the responder *)
 | OLoaded (c : lchoice)                 (* the local store was written / read (ungated) *)
-| OQuiet (held : option gkind) (tbl : option rstate).  (* everything parked; executor at a gate?; PeerState of the request *)
+| OQuiet (held : option gkind) (tbl : option rstate)
+| OSettle.                               (* everything parked, but the actor loop is held by the driver inside a response hook:
+                                            no refusal is claimed and PeerState cannot be asked; internal steps may have happened *)  (* everything parked; executor at a gate?; PeerState of the request *)
 
 Definition enc_err (e : err) : list N :=
   match e with ErrCC => [0] | ErrStatus n => [1; n] | ErrHook => [2] | ErrMissing => [3] | ErrHard => [4] end%N.
@@ -580,6 +582,7 @@ Definition advance (gp gh : bool) (ss : list st) (o : obs) : list st :=
   | ORecvE RClosed _ => filter (fun s => match ec s with ECExit => true | _ => false end) ss
   | OSent m => flat_map (succs gp gh [VSend m]) (close gp gh ss)
   | OLoaded c => flat_map (succs gp gh [VLoad c]) (close gp gh ss)
+  | OSettle => close gp gh ss
   | OQuiet held tbl =>
       filter (fun s => quiescent gp gh s && option_eqb gkind_eqb (gate_of gp gh s) held && option_eqb rstate_eqb (tbl_of s) tbl)
              (close gp gh ss)
@@ -631,6 +634,8 @@ Definition mon_step (m : mon_st) (o : obs) : mon_st :=
   | ORecvE RNothing _ => Build_mon_st (m_pclosed m) (m_eclosed m) (m_bad m || m_eclosed m) (m_live m) (m_cancelled_live m) (m_cancel_after m) (m_cc m) (m_first m) (m_ctx m) (m_errs m) (m_bh m) (m_ctxl m)
   | OSent OCancel => Build_mon_st (m_pclosed m) (m_eclosed m) (m_bad m) (m_live m) (m_cancelled_live m) (m_cancel_after m || m_cancelled_live m) (m_cc m) (m_first m) (m_ctx m) (m_errs m) (m_bh m) (m_ctxl m)
   | OQuiet _ tbl => Build_mon_st (m_pclosed m) (m_eclosed m) (m_bad m) (match tbl with Some _ => true | None => false end) (m_cancelled_live m) (m_cancel_after m) (m_cc m) (m_first m) (m_ctx m) (m_errs m) (m_bh m) (m_ctxl m)
+  | OSettle => (* no PeerState while the loop is held: liveness unknown from here to the next OQuiet *)
+      Build_mon_st (m_pclosed m) (m_eclosed m) (m_bad m) false (m_cancelled_live m) (m_cancel_after m) (m_cc m) (m_first m) (m_ctx m) (m_errs m) (m_bh m) (m_ctxl m)
   | OExecGo GHook CHookErr =>
       Build_mon_st (m_pclosed m) (m_eclosed m) (m_bad m) (m_live m) (m_cancelled_live m) (m_cancel_after m) (m_cc m) (m_first m) (m_ctx m) (m_errs m) (S (m_bh m)) (m_ctxl m)
   | _ => m
